@@ -656,6 +656,13 @@ def run(ctx: Ctx, rep: Report, tier: str) -> None:
     from .c05 import memo_rules
 
     memo_rules(ctx, rep, rid="R03.9")
+    # R03.10 premise: a field object re-parsed in place refreshes everything the cover tests read (ports, networks,
+    # flags): every normal path of a line setter assigns the attributes the other paths assign (C01 R01.7)
+    from .c01 import setter_completeness
+
+    sub = Report("C03")
+    setter_completeness(ctx, sub)
+    rep.absorb(sub, "R03.10")
 
 
 def flags_rule(ctx: Ctx, rep: Report, h: Func) -> None:
